@@ -28,6 +28,7 @@ class Event:
     value: Any                  # inlined expression (call / value / target)
     guards: tuple = ()
     extra: Any = None           # store: inlined value; loop: env before
+    pre: Any = None             # loop: the complete env before the loop
 
 
 @dataclass
@@ -226,7 +227,8 @@ def _stmt(p: Path, s: ast.stmt) -> list[Path]:
                     and isinstance(n.ctx, ast.Store)}
         p.events.append(Event("loop", s, subst(
             s.iter if isinstance(s, ast.For) else s.test, p.env), p.guards,
-            {k: v for k, v in p.env.items() if k not in assigned}))
+            {k: v for k, v in p.env.items() if k not in assigned},
+            dict(p.env)))
         # whatever the loop assigns is unknown afterwards
         for n in ast.walk(s):
             if isinstance(n, ast.Name) and isinstance(n.ctx, ast.Store):
